@@ -195,16 +195,29 @@ def per_row_asserts(ctx: Ctx):
                 gr = ba.RankFacts()
                 gr.learn_from_reset(gsl.td)
                 for k, v in rs.td.cells.items():
-                    v0 = nf.strip(v)
-                    if v0.op == "cell0" and v0.args[1] in gr.cell_rank and k not in ranks.cell_rank:
-                        ranks.cell_rank[k] = gr.cell_rank[v0.args[1]]
+                    if k in ranks.cell_rank:
+                        continue
+                    r_in = gr.rank(v)
+                    if r_in is not None:
+                        ranks.cell_rank[k] = r_in
+                        if gr.unit_last(v):
+                            ranks.cell_unit_last.add(k)
         ranks.learn_loop_invariants()
+        from .C04 import uniform_keys
+        uni = uniform_keys(env)
         bad = []
         n_parts = 0
         for e in sl.events("assert"):
             for part in strip_top_all(e.data):
                 n_parts += 1
                 for h in ba.hits(part, ranks):
+                    if h.kind == "rank-broadcast":
+                        # harmless when one operand is row-uniform (e.g. the normalised capacity 1.0): the [B, B] result repeats each row's own value
+                        n0 = h.node
+                        ops_ = [x for x in (n0.args if n0.op in ba.ELEMENTWISE else (n0.args[1:] if n0.op == "call" else [n0.args[0]] + list(n0.args[2:]))) if isinstance(x, vg.S) and not ba.is_scalarish(x)]
+                        if any(vg.cells_of(x) and vg.cells_of(x) <= uni and not vg.params_of(x) for x in ops_):
+                            ctx.note(f"{cname}.checker: rank-mismatched comparison with a row-uniform operand ({vg.show(n0, 2)[:80]}): no cross-row effect")
+                            continue
                     if h.kind in ("row-pick", "rank-broadcast"):
                         bad.append(h)
         if bad:
